@@ -35,4 +35,21 @@ may be deeper); this is the tree's own depth with an item in the hole -/
 theorem fdepth_valItem_le (it : ValItem) (v : Bytes) : Filter.fdepth (it.tree v) ≤ Filter.maxNesting := by
   rw [fdepth_valItem]; decide
 
+/-- the bare item (no outer parentheses: the value runs to the end of the string) in the grammar -/
+theorem valItem_GItem {d : Dialect} (it : ValItem) {v s : Bytes} (ha : IsAttrDesc d it.attr)
+    (hv : Spec.Filter.RVal v s) : GItem d (it.tree v) (it.attr ++ it.op ++ s) := by
+  cases it with
+  | eq a => simpa [ValItem.attr, ValItem.op, ValItem.tree] using (GItem.eq ha hv)
+  | ge a => simpa [ValItem.attr, ValItem.op, ValItem.tree] using (GItem.ge ha hv)
+  | le a => simpa [ValItem.attr, ValItem.op, ValItem.tree] using (GItem.le ha hv)
+  | approx a => simpa [ValItem.attr, ValItem.op, ValItem.tree] using (GItem.approx ha hv)
+  | ext a =>
+    have := GItem.extAttr (d := d) (kw := []) (rule := none) (dn := false) ha
+      (fun h => by cases h) (fun r h => by cases h) (fun _ r h => by cases h) hv
+    simpa [ValItem.attr, ValItem.op, ValItem.tree, Spec.Filter.optStr] using this
+
+theorem gparse_bare (it : ValItem) {v s : Bytes} (ha : IsAttrDesc .lib it.attr) (hv : Spec.Filter.RVal v s) :
+    (Filter.parse (it.attr ++ it.op ++ s)).map Tag.toTlv = some (toTlv (it.tree v)) :=
+  gparse_of_GLib (Or.inr (valItem_GItem it ha hv)) (fdepth_valItem_le it v)
+
 end Ldap3V
